@@ -1,5 +1,6 @@
 """C05 — swap pricing never beats the exact curve."""
 from lib import fw
+from checks import _cl
 
 MODULES = ["SunriseVerif.Props.C05"]
 
@@ -12,6 +13,7 @@ def run(ctx):
     mism = ctx.kernel_diff("dec,cl", n)
     if mism:
         ctx.fail("correspondence", "kernel differential (Go vs regenerated Lean)", str(mism[:3]), replay={"kernel_mismatches": mism[:20]})
+    _cl.run_cl(ctx, "C05")
     # the statements evaluated on concrete operands (cheap when proofs hold; the failing-input search when they do not)
     bad = fw.pred_search(ctx, "C05", (20000 if ctx.thorough() else 3000) if ok else 60000)
     if bad:
